@@ -47,6 +47,10 @@ func ReducedSentences() []string {
 			out = append(out, "$["+q+body+q+"]", "$..["+q+body+q+",'c']", "$[?(@["+q+body+q+"])]")
 		}
 	}
+	// scripts are not supported, whatever stands between the parentheses
+	for _, sc := range []string{"@.length", "@.length-1", "@.length - 1", " @.length ", "@.length-", "@.length+1", "@.len", "@", "1", "1+1", "$.a", "@.a.length", "length", "@.length()", "-1", "0", "''", "@.length-0"} {
+		out = append(out, "$[("+sc+")]", "$.a[("+sc+")].b", "$..[("+sc+")]", "$[?(@.a[("+sc+")] == 1)]")
+	}
 	atoms := []string{"@.a", "!@.a", "$.a", "!$.a", "@.a == 1", "1 == 1", "1 == 2", "@.a != $.b", "@.a < 1", "$.a >= 1", "@.a =~ /a/", "(@.a)", "(@.a == 1)"}
 	for _, a := range atoms {
 		for _, b := range atoms {
@@ -70,6 +74,7 @@ var Vocabulary = []string{
 	"\\u0041", "\\ud800", "\\n", "\\'", "\\\\", "é", "😀", "\x00", "\x7f", "[*]", "['a']", "[0]", "[0:1]", "[::2]", "[(1)]",
 	"9223372036854775807", "-9223372036854775808", "9223372036854775808", "2147483648", "-2147483649", "99999999999999999999",
 	"1e400", "['a','b']", "[?(@.a)]", "[?(@.a == 1)]", "@.a", "$.a", "..a", ".a",
+	"[(@.length)]", "[(@.length-1)]", "(@.length", "@.length", "[(", ")]", "[-0]", "[-0:]", "[:-0]", "-0", "-00",
 	".count()", ".sum()", ".avg()", ".min()", ".max()", ".median()", ".length()", ".len()", ".size()", ".keys()", ".values()", ".first()", ".last()", ".type()", ".match()", ".value()",
 	"=~/^/", "=~/$/", "=~//", "=~ / /", "\\ud834'", "\\udd1e\"", "\\\"", "\\\\'", "‘", "’", "“", "”", "\u00a0", "\u3000", "\ufeff",
 }
